@@ -60,6 +60,7 @@ def handle (st : DState) (line : String) : DState × String :=
   | "dist" :: args => (st, cmdDist args)
   | "prob" :: args => (st, cmdProb args)
   | "pval" :: args => (st, cmdPval args)
+  | "pv" :: args => (st, cmdPv args)
   | "cfg" :: args => (st, cmdCfg args)
   | "dl" :: args => (st, cmdDownload args)
   | "dh" :: args => (st, cmdDatasetHist args)
